@@ -135,6 +135,14 @@ CHECKS = {
                      "SymMat/BandMat/CovMat storage, and exceptions for non-conforming operands are checked.",
                 note="a moved-from object is 'unspecified' in the model (not compared); SymMat/CovMat life cycle, sortvec, transvec and random "
                      "ill-conditioned reals are not covered", ref="8/C15"),
+    "C16": dict(cat="exploration", technique="TLC-enumerated sparsity patterns with exact dense data; kernels replayed under ASan",
+                text="SparseKernels.tla enumerates all patterns with up to 4 rows over up to 4 columns in three fill orders and derives the dense "
+                     "matrix, column graph, connectivity (reachability), normal matrix and exact rank; harness/drv_sparse checks SparseMatrix "
+                     "build/transpose/replicate, SparseMatrixGraph adjacency and connected(), that the RCM ordering is a permutation with consistent "
+                     "inverse, that the envelope holds the permuted normal matrix (no non-zero outside the profile), that cholDec gives exactly zero "
+                     "pivots for dependent unknowns (defect = n - rank) and L D L' = N, that solve() and the sparse inverse satisfy N x = r and NQN = N. "
+                     "The block-diagonal Cholesky is checked through the homogenised normal equations of C01/C02 (incl. wide band blocks).",
+                note="sizes up to 4x4; values are small integers so that rank is numerically unambiguous", ref="8/C16"),
 }
 
 NOT_APPLICABLE = []
